@@ -186,6 +186,9 @@ m("c12-no-validate", "C12", "x/ucdao/keeper/msg_server.go",
 m("c13-coefficient-type-only", "C13", "x/coinomics/types/params.go",
   "\tif v.Abs().GT(sdk.NewDec(1_000_000_000_000_000_000)) {\n\t\treturn fmt.Errorf(\"reward coefficient out of range: %s\", v)\n\t}\n", "\t_ = v.Abs()\n", "range-checked",
   "the coefficient validator checks the type only")
+m("c13-params-second-home", "C13", "x/coinomics/keeper/params.go",
+  "func (k Keeper) GetParams(ctx sdk.Context) (params types.Params) {\n", "func (k Keeper) GetParams(ctx sdk.Context) (params types.Params) {\n\tif bz := ctx.KVStore(k.storeKey).Get(types.ParamsKey); bz != nil {\n\t\tk.cdc.MustUnmarshal(bz, &params)\n\t\treturn params\n\t}\n", "reads-the-subspace-only",
+  "GetParams prefers a copy in the module's own store")
 # ---------------- C14 ----------------
 m("c14-gov-plain-bank", "C14", "app/app.go",
   "\t\tappCodec, keys[govtypes.StoreKey], app.AccountKeeper, &haqqBankKeeper,\n\t\tstakingKeeper, app.MsgServiceRouter(), govConfig, authAddr,",
@@ -479,6 +482,9 @@ m("c17-branches-swapped", "C17", "x/feemarket/keeper/eip1559.go",
 m("c17-zero-height-keeps-enable-height", "C17", "app/export.go",
   "\tif err := app.FeeMarketKeeper.SetParams(ctx, fmParams); err != nil {\n\t\treturn err\n\t}\n", "\t_ = fmParams\n", "enable-height-rebased",
   "the zero-height export computes the rebased EnableHeight but does not write it back")
+m("c17-eip712-route-without-gas-wanted", "C17", "app/ante/handler_options.go",
+  "\t\tibcante.NewRedundantRelayDecorator(options.IBCKeeper),\n\t\tevmante.NewGasWantedDecorator(options.EvmKeeper, options.FeeMarketKeeper),\n\t)\n}\n\n// newLegacy", "\t\tibcante.NewRedundantRelayDecorator(options.IBCKeeper),\n\t)\n}\n\n// newLegacy", "records-declared-gas",
+  "the Cosmos route no longer records declared gas")
 # ---------------- C18 ----------------
 m("c18-dynfee-feecap-from-tipcap", "C18", "x/evm/types/dynamic_fee_tx.go",
   "gasFeeCapInt, err := types.SafeNewIntFromBigInt(tx.GasFeeCap())", "gasFeeCapInt, err := types.SafeNewIntFromBigInt(tx.GasTipCap())",
@@ -518,6 +524,9 @@ m("c18-tipcap-pointer-only", "C18", "x/evm/types/dynamic_fee_tx.go",
 m("c18-indexer-trusts-recorded-hash", "C18", "indexer/kv_indexer.go",
   "\t\t\ttxHash := ethTx.Hash()\n", "\t\t\ttxHash := common.HexToHash(ethMsg.Hash)\n", "reads-recorded-hash",
   "the indexer files the message under the hash recorded in it")
+m("c18-intrinsic-gas-by-type", "C18", "x/evm/keeper/fees.go",
+  "\tif txData.GetAccessList() != nil {", "\tif txData.TxType() == ethtypes.AccessListTxType {", "takes-the-transaction's-access-list",
+  "only access-list transactions pay for their access list at admission")
 # ---------------- C19 ----------------
 m("c19-feemarket-blockgas-not-imported", "C19", "x/feemarket/genesis.go",
   "\tk.SetBlockGasWanted(ctx, data.BlockGas)\n", "", "x/feemarket#GenesisState.BlockGas", "exported block gas figure is dropped on import: the first base fee after import differs")
@@ -541,6 +550,9 @@ m("c19-evm-import-storage-needs-code", "C19", "x/evm/genesis.go",
 m("c19-hand-jail-keeps-power-index", "C19", "app/export.go",
   "\t\t\tapp.StakingKeeper.DeleteValidatorByPowerIndex(ctx, validator)\n\t\t\tvalidator.Jailed = true", "\t\t\tvalidator.Jailed = true", "leaves-the-power-index",
   "the zero-height export jails by hand without removing the record from the power index")
+m("c19-export-skips-disabled-pairs", "C19", "x/erc20/keeper/token_pairs.go",
+  "\tk.IterateTokenPairs(ctx, func(tokenPair types.TokenPair) (stop bool) {\n\t\ttokenPairs = append(tokenPairs, tokenPair)", "\tk.IterateTokenPairs(ctx, func(tokenPair types.TokenPair) (stop bool) {\n\t\tif !tokenPair.Enabled {\n\t\t\treturn false\n\t\t}\n\t\ttokenPairs = append(tokenPairs, tokenPair)", "lists-every-element",
+  "the list the erc20 export is built from leaves out pairs whose conversion is switched off")
 # ---------------- C20 ----------------
 m("c20-indexer-resumes-at-last-indexed", "C20", "server/indexer_service.go",
   "\tif earliest := status.SyncInfo.EarliestBlockHeight; lastBlock < earliest-1 {\n\t\tlastBlock = earliest - 1\n\t}\n", "", "start-clamped-to-the-earliest-block",
